@@ -141,6 +141,7 @@ type cmdEnv struct {
 	readName *StringV
 	out      []outSeg
 	pending  []outSeg
+	noTrunc  bool
 	flushed  bool
 	closed   bool
 }
